@@ -282,3 +282,37 @@ fn c18_pptt_oversize_processor_node_refused() {
         panic!("processor node of {} bytes returned with length field {}", b.len(), b[1]);
     }
 }
+
+// ---- HMAT (C12 / C18)
+#[test]
+fn c12_hmat_non_square_matrix_row_major() {
+    use acpi_tables::hmat::*;
+    for (ni, nt) in [(1usize, 3usize), (3, 1), (2, 3), (3, 2), (2, 2)] {
+        let mut s = SystemLocality::new(LocalityType::Memory, DataType::AccessLatency, MinTransferSize::SizeByteAligned, 100, ni, nt);
+        let mut model = vec![0xffffu16; ni * nt];
+        for i in 0..ni {
+            for j in 0..nt {
+                let v = (1 + i * 16 + j) as u16;
+                s.set_entry_value(i, j, v);
+                model[i * nt + j] = v;
+                let b = ser(&s);
+                assert_eq!(le32_at(&b, 4) as usize, b.len(), "structure length");
+                let base = 32 + 4 * ni + 4 * nt;
+                let got: Vec<u16> = (0..ni * nt).map(|k| le16_at(&b, base + 2 * k)).collect();
+                assert_eq!(got, model, "HMAT {}x{} after set_entry_value({}, {}, {}): row-major matrix (stride = number of targets)", ni, nt, i, j, v);
+            }
+        }
+    }
+}
+#[test]
+fn c18_hmat_too_many_smbios_handles_refused() {
+    use acpi_tables::hmat::*;
+    let mut c = MemorySideCache::new(1, 4096, CacheLevel::One, CacheLevel::One, Associativity::DirectMapped, WritePolicy::Writeback, 64);
+    for i in 0..65536u32 {
+        c.add_smbios_handle(i as u16);
+    }
+    let r = refuses(|| ser(&c));
+    if let Err(b) = r {
+        panic!("memory side cache with 65536 SMBIOS handles returned: handle count field {}, structure length {}", le16_at(&b, 30), le32_at(&b, 4));
+    }
+}
